@@ -95,3 +95,22 @@ def patched(obj, attr, value):
                 pass
         else:
             setattr(obj, attr, old)
+
+
+_MISSING = object()
+
+
+def seen(names, args, kwargs, defaults=None):
+    """Values a call gave for the named parameters, WITHOUT changing how the call is forwarded: wrappers pass
+    *args/**kwargs to the real function exactly as they received them (positional stays positional, keyword stays
+    keyword) and use this only to look at what was passed."""
+    defaults = defaults or {}
+    out = []
+    for k, n in enumerate(names):
+        if k < len(args):
+            out.append(args[k])
+        elif n in kwargs:
+            out.append(kwargs[n])
+        else:
+            out.append(defaults.get(n))
+    return out
